@@ -145,4 +145,20 @@ CLAIMS = {
              "schedules - the bulk of the property - are NOT decided (runtime arithmetic over interleavings).",
         technique="CFG must-pass / guard analysis; who-may-call / who-may-write; paired-delta extraction",
         ref="4/C04"),
+    "C06": dict(
+        text="Static analysis of structural necessary conditions of the game lifecycle: the regular abstraction of "
+             "Game._run with all callees inlined (if=alternation, loops=star) is included in the grammar game_will_start "
+             "game_starting game_started (turn)* game_will_end game_ending game_ended with turn = three start events, "
+             "one ball plus any number of extra balls, three end events, and ball = will_start starting started extras "
+             "will_end ending ended; each lifecycle event has one posting site, *ing events are awaited queue events, the "
+             "three ball events carry the same player/ball/balls_remaining/is_extra_ball dict and turn events the current "
+             "player and number; the ball number grows by one between turn_starting and turn_started and nowhere else, an "
+             "extra ball is consumed before it is played; end-or-rotate is decided after the turn ended on live state with "
+             "exactly the terms slam-tilt / last ball / last player; every store to balls-in-play is 0 or guarded into "
+             "[0, balls known], the ball ends exactly on the positive-to-zero transition or on request; the end-ball flag "
+             "is cleared before anything is awaited; players are created only on the non-vetoed add path gated by "
+             "ending / max players / ball 1; machine.game is set during the run and cleared on stop. Requests arriving "
+             "inside queue events are only decided as far as these ordering rules go.",
+        technique="regular event-trace abstraction + language inclusion (product construction); CFG dominance/guards; who-may-write",
+        ref="4/C06"),
 }
